@@ -284,6 +284,8 @@ def run(ctx):
 _C = "phyclone/process_trace/consensus.py"
 _P = "phyclone/process_trace/process_trace.py"
 SELFTEST = [
+    {"name": "benign-S1-weight-through-one-of-two-local-functions", "kind": "benign", "file": _C, "old": "    for i, tree in enumerate(trees):\n        tree_clades = get_clades(tree)\n        for clade in tree_clades:\n            if weighted:\n                clades_counter[clade] += log_p_list[i]\n\n            else:\n                clades_counter[clade] += 1\n", "new": "    if weighted:\n\n        def tree_weight(tree_idx):\n            return log_p_list[tree_idx]\n\n    else:\n\n        def tree_weight(tree_idx):\n            return 1\n\n    for i, tree in enumerate(trees):\n        for clade in get_clades(tree):\n            clades_counter[clade] += tree_weight(i)\n"},
+    {"name": "S1-local-weight-functions-swapped", "kind": "break", "rule": "S1", "file": _C, "old": "    for i, tree in enumerate(trees):\n        tree_clades = get_clades(tree)\n        for clade in tree_clades:\n            if weighted:\n                clades_counter[clade] += log_p_list[i]\n\n            else:\n                clades_counter[clade] += 1\n", "new": "    if weighted:\n\n        def tree_weight(tree_idx):\n            return 1\n\n    else:\n\n        def tree_weight(tree_idx):\n            return log_p_list[tree_idx]\n\n    for i, tree in enumerate(trees):\n        for clade in get_clades(tree):\n            clades_counter[clade] += tree_weight(i)\n"},
     {"name": "benign-cli-consensus-explicit-parameters", "kind": "benign", "file": "phyclone/cli.py", "old": "def consensus(**kwargs):\n    \"\"\"Build consensus results.\"\"\"\n    write_consensus_results(**kwargs)\n", "new": "def consensus(in_file, out_table_file, out_tree_file, consensus_threshold, weight_type):\n    \"\"\"Build consensus results.\"\"\"\n    write_consensus_results(in_file, out_table_file, out_tree_file, consensus_threshold=consensus_threshold, weight_type=weight_type)\n"},
     {"name": "S2-cli-consensus-explicit-drops-weight-type", "kind": "break", "rule": "S2", "file": "phyclone/cli.py", "old": "def consensus(**kwargs):\n    \"\"\"Build consensus results.\"\"\"\n    write_consensus_results(**kwargs)\n", "new": "def consensus(in_file, out_table_file, out_tree_file, consensus_threshold, weight_type):\n    \"\"\"Build consensus results.\"\"\"\n    write_consensus_results(in_file, out_table_file, out_tree_file, consensus_threshold=consensus_threshold)\n"},
     {"name": "S2-cli-consensus-threshold-swapped-with-weight", "kind": "break", "rule": "S2", "file": "phyclone/cli.py", "old": "def consensus(**kwargs):\n    \"\"\"Build consensus results.\"\"\"\n    write_consensus_results(**kwargs)\n", "new": "def consensus(in_file, out_table_file, out_tree_file, consensus_threshold, weight_type):\n    \"\"\"Build consensus results.\"\"\"\n    write_consensus_results(in_file, out_table_file, out_tree_file, weight_type, consensus_threshold)\n"},
